@@ -173,6 +173,21 @@ def isRelativeTo (path dir : List String) : Bool := dir.isPrefixOf path
 def findRelevantTomls (tomls : List Toml) (path : List String) : List Toml :=
   (tomls.filter fun t => isRelativeTo path t.dir).mergeSort fun a b => partsLe a.dir b.dir
 
+/-! ## `_find_licenses` -/
+
+/-- one iteration of the loop over `glob("LICENSES/**")`: `ident` is the identifier the code derives
+    from one path (stem / name / LicenseRef rules); a second path with the same identifier is the
+    `RuntimeError` (`none`). -/
+def findLicStep (ident : String → String) (acc : Option (List (String × String))) (p : String) :
+    Option (List (String × String)) :=
+  match acc with
+  | none => none
+  | some d => if (d.map (·.1)).contains (ident p) then none else some (d ++ [(ident p, p)])
+
+/-- `Project._find_licenses` over the paths in the order `glob` produced them -/
+def findLicenses (ident : String → String) (paths : List String) : Option (List (String × String)) :=
+  paths.foldl (findLicStep ident) (some [])
+
 /-! ## The END pattern -/
 
 /-- `(?:a|b|…)`; the empty alternation matches nothing -/
